@@ -27,7 +27,7 @@ def nested(ctx, aux, role):
                 c += [t for t in ctx.res.resolve_call(n.value) if isinstance(t, FuncInfo)]
     elif role == 'indexer':
         # the generator that stores into the index and re-yields the source rows
-        c = [f for f in fs if f.is_generator and any(isinstance(n, ast.Call) and u(n.func).endswith('.set') for n in ast.walk(f.node))
+        c = [f for f in fs if f.is_generator and any(isinstance(n, ast.Call) and u(n.func).endswith('.set') for n in ast.walk(ctx.N(f).node))
              and not any(isinstance(n, ast.Try) and any('KeyError' in u(h.type) for h in n.handlers if h.type is not None)
                          and any(isinstance(x, ast.Continue) for x in ast.walk(n)) for n in ast.walk(f.node))
              and f.all_params != ['package']]
@@ -169,6 +169,18 @@ def _body(ctx):
                 pseudo(sets[0].args[0]) == pseudo(dbs[0].args[0])
             if okall:
                 ikey, cur = pseudo(dbs[0].args[0]), pseudo(dbs[0].args[1])
+        # the row is folded into the index BEFORE it is handed on: with source_delete=False the source rows continue downstream
+        # by reference, and a later step that edits them in place must not change what the index holds
+        for s in isig:
+            nodes = list(path_nodes(s.path, into_loops=True))
+            ypos = [i for i, n_ in enumerate(nodes) if isinstance(n_, ast.Yield)]
+            spos = [i for i, n_ in enumerate(nodes) if isinstance(n_, ast.Call) and u(n_.func).endswith('.set')]
+            reads = [i for i, n_ in enumerate(nodes) if isinstance(n_, ast.Name) and n_.id == irow and isinstance(n_.ctx, ast.Load)
+                     and not any(n_ is getattr(y, 'value', None) for y in nodes if isinstance(y, ast.Yield))]
+            run.check(bool(ypos) and bool(spos) and max(spos) < min(ypos) and (not reads or max(reads) < min(ypos)), 'R23',
+                      where(repo, il), ix.qualname, 'index the source row, then yield it',
+                      'a source row is handed downstream before it has been folded into the index: a later step that edits rows '
+                      'in place changes the keys / aggregates the join uses')
         run.check(okall, 'R23', where(repo, il), ix.qualname, 'per source row: db.set(key, current); usage.set(key, False); yield row',
                   'the indexer does not store every source row under its key, clear its usage flag and pass the row on unchanged')
         run.check(ikey is not None and len(find_stmt('%s = source_key(%s, %s)' % (ikey, irow, irn), il)) == 1, 'R23', where(repo, il),
